@@ -6,25 +6,38 @@ from mp4gen import parse_case as mp4_parse
 ID = "C09"
 AREAS = ["mp4", "webp"]
 AREA = "mp4"
-COQ_TARGETS = ["theories/Props/C09.vo"]
+COQ_TARGETS = ["theories/Props/C09.vo", "theories/Props/C09w.vo"]
 REQUIRES = ["From Coq Require Import List NArith Bool.",
             "From MS Require Import Base.Bytes Base.Outcome Base.Prog Mp4.Header Mp4.Box Mp4.San Props.C09.",
             "Open Scope N_scope."]
-COQCHK = ["MS.Props.C09"]
+COQCHK = ["MS.Props.C09", "MS.Props.C09w"]
 _PRE = """forall (cfg : config) (lenient : bool) (inp : input) (fuel : nat),
   max_metadata_size cfg < 4294967296 -> ilen inp <= U64MAX ->
   (forall t, cumulative_mdat_box_size cfg = Some t -> t <= U32MAX) ->"""
 THEOREMS = [
     ("C09_mp4_no_panic", _PRE + " forall n, mp4_sanitize cfg lenient U64MAX' inp fuel <> Panic n"),
     ("C09_mp4_terminates", _PRE + " (N.to_nat (ilen inp / 8) < fuel)%nat -> mp4_sanitize cfg lenient U64MAX' inp fuel <> OutOfFuel"),
+    ("C09_webp_container_no_panic", """forall (lossless : N -> N -> bytes -> res unit) (allow lenient : bool) (ms : N) (inp : input) (fuel : nat),
+  (forall w h b, rgood (lossless w h b)) -> forall n, webp_sanitize lossless allow lenient ms inp fuel <> Panic n"""),
+    ("C09_webp_container_terminates", """forall (lossless : N -> N -> bytes -> res unit) (allow lenient : bool) (ms : N) (inp : input) (fuel : nat),
+  (forall w h b, rgood (lossless w h b)) -> (N.to_nat (ilen inp / 8) < fuel)%nat ->
+  webp_sanitize lossless allow lenient ms inp fuel <> OutOfFuel"""),
+    ("C09_webp_lossless_total", """forall (w h : N) (body : bytes), dims w h ->
+  lossless_read w h body = Ok tt \\/ exists e, lossless_read w h body = EParse e"""),
 ]
+_WREQ = ["From Coq Require Import List NArith Bool.", "From Coq.Strings Require Import Byte.",
+         "From MS Require Import Base.Bytes Base.Outcome Base.Prog Webp.Container Webp.Vp8l Webp.ContainerProofsTotal Webp.Vp8lProofsTop Props.C09w.",
+         "Open Scope N_scope."]
+REQUIRES_FOR = {n: _WREQ for n in ("C09_webp_container_no_panic", "C09_webp_container_terminates", "C09_webp_lossless_total")}
 XCHECK_N = 0
 EXHAUSTIVE = {"quick": False, "thorough": False}
 NOTES = ["partial by nature: the theorems are about the modelled logic (every unwrap/unreachable!/assert!/overflow/slice-bound site of the code is a "
          "`Panic n` outcome of the model and is proved unreachable; every loop has a proved fuel bound). Allocator failure, stack depth inside "
          "bitstream-io's compile_read_tree / Report formatting and third-party internals cannot be exhibited by a Gallina model: they are only sampled "
          "by the harness (catch_unwind, overflow-checks and debug-assertions on).",
-         "webp: the container and lossless no-panic theorems are added to THEOREMS as they are proved (see LEVEL_NOTE)"]
+         "webp: C09_webp_container_no_panic / _terminates are about the container programme with the lossless validator as a parameter that never panics or "
+         "runs out of fuel; C09_webp_lossless_total discharges that for Webp/Vp8l.v on dimensions with fewer than 2^32 pixels (canvas, VP8L header). An ANMF frame "
+         "header can declare up to 2^24 x 2^24 pixels for a lossless ALPH chunk: outside the proved domain, sampled by the harness (frames of 2^24 x 2^24)"]
 
 
 def area_of(line):
@@ -61,6 +74,12 @@ def gen(run):
             f = W.riff(W.chunk(b"VP8X", W.vp8x_payload(W.ANIM, w, h)) + W.mk(b"ANIM") +
                        W.chunk(b"ANMF", W.anmf_payload(W.chunk(b"VP8L", W.vp8l_payload(w, h, body)), w=w, h=h)))
         raw.append((W.case_line("cursor", rng.random() < 0.5, f), "webp-lossless-garbage"))
+    # ANMF frames declaring 2^24 x 2^24 pixels (the container does not bound a frame by the canvas) with lossless ALPH bodies
+    big = 2**24
+    for body in (W.LL_OK, bytes(rng.randrange(256) for _ in range(40)), b""):
+        f = W.riff(W.chunk(b"VP8X", W.vp8x_payload(W.ANIM | W.ALPHA, 16, 16)) + W.mk(b"ANIM") +
+                   W.chunk(b"ANMF", W.anmf_payload(W.chunk(b"ALPH", b"\1" + body) + W.mk(b"VP8 "), w=big, h=big)))
+        raw.append((W.case_line("cursor", False, f), "webp-frame-2p48-pixels"))
     for l, s in raw:
         yield l, s
 
@@ -102,12 +121,15 @@ ASSUMPTIONS = ["max_metadata_size < 2^32 (the property says <= 1 GiB)", "stream 
 RULE = ("mp4: the C05 standard stream (layouts, pathologies, truncation at every byte, tree mutations, config lattices, exhaustive sequences) plus spliced and mutated "
         "seed files; webp: boundary cases, truncation at every byte of 16 seed files, sparse near-2^32 sizes, mutations, random lossless bodies for dimensions 1x1..16384x16384 "
         "in VP8L / ALPH / ANMF positions. Non-trivial = case line longer than 120 characters; distinct = distinct line.")
-LEVEL_TEXT = ("Theorems C09_mp4_no_panic / C09_mp4_terminates (Coq, all inputs, both reader kinds, all configs with limit < 4 GiB, explicit fuel bound ilen/8+1): no Panic site "
+LEVEL_TEXT = ("WebP: C09_webp_container_no_panic / C09_webp_container_terminates (every input, both configs, strict and seek-style readers, every fuel resp. fuel > ilen/8: "
+              "no Panic site of the container model - ChunkReader protocol assertions, stream_position - 8, parent of the root, slice accesses of the chunk parsers - is "
+              "reachable and every loop terminates) and C09_webp_lossless_total (the lossless validator returns Ok or a parse error for every byte string and all "
+              "dimensions below 2^32 pixels). MP4: theorems C09_mp4_no_panic / C09_mp4_terminates (Coq, all inputs, both reader kinds, all configs with limit < 4 GiB, explicit fuel bound ilen/8+1): no Panic site "
               "of the mp4 model is reachable and the loop terminates; plus model/implementation correspondence of outcome classes and a panic/timeout/abort observer on "
               "structure-aware, mutated and exhaustively truncated inputs for both sanitizers. A universally quantified absence-of-failure claim over the sanitizer's own logic "
               "is what a proof decides; runtime aborts outside the logic are sampled.")
-LEVEL_NOTE = ("PARTIAL by nature (see NOTES): proved for the modelled logic of mp4san (complete: top-level loop, moov tree, rewrite); the webp container / lossless no-panic "
-              "theorems are proved in their own areas (C06 closed forms, C07 model, C19 bit reader) and cited here when finished; allocator failure, stack depth and "
-              "third-party internals are only sampled by the harness.")
+LEVEL_NOTE = ("PARTIAL by nature (see NOTES): proved for the modelled logic of mp4san (top-level loop, moov tree, rewrite) and of webpsan (container programme; lossless "
+              "validator for dimensions below 2^32 pixels; the bit reader's panic-freedom is C19's); allocator failure, stack depth, third-party internals and lossless "
+              "ALPH frames declaring 2^32 pixels or more are only sampled by the harness.")
 TECHNIQUE = "Coq proof (panic sites unreachable, fuel bounds) + outcome-class correspondence + panic/timeout observer"
 DESIGN_REF = "DESIGN.md section 7 (C09)"
